@@ -31,7 +31,9 @@ theorem regular_iff (b : UInt8) : regular b ↔ isRegular b = true := by
   · have : ¬ (32 < b) := UInt8.not_lt.mpr h
     simp [h, this]
   · have : 32 < b := UInt8.not_le.mp h
-    simp [h, this]
+    simp [h, this, and_assoc]
+
+instance : DecidablePred regular := fun b => by unfold regular; infer_instance
 
 theorem all_regular (n : List UInt8) (hn : ∀ b ∈ n, regular b) : n.all isRegular = true := by
   simp only [List.all_eq_true]
@@ -147,13 +149,18 @@ def ex2 : List UInt8 := [40, 40, 41, 92, 13, 10, 0, 255, 41]
 example : stringPS ex1 = [40, 92, 40, 92, 41, 92, 41, 92, 92, 92, 114, 10, 0, 200, 92, 40, 41] := by decide
 example : stringPS ex2 = [40, 40, 40, 41, 92, 92, 92, 114, 10, 0, 255, 41, 41] := by decide
 
+/-- the bytes of a string token (for evaluating the model in the examples) -/
+def strOf : Except Err Tok → Option (List UInt8)
+  | .ok (.str b) => some b
+  | _ => none
+
 -- instances of the theorem
 example : (scanToken (fresh (stringPS ex1 ++ [47, 120]))).1 = .ok (.str ex1) := (string_roundtrip ex1 _).1
 example : (scanToken (fresh (stringPS ex2 ++ [40, 41]))).2.src = [40, 41] := (string_roundtrip ex2 _).2.1
 -- the same by evaluating the scanner model (independent of the proof)
-example : (scanToken (fresh (stringPS ex1 ++ [47, 120]))).1 = .ok (.str ex1) := by rfl
-example : (scanToken (fresh (stringPS ex2 ++ [40, 41]))).1 = .ok (.str ex2) := by rfl
-example : (scanToken (fresh (stringPS ex2 ++ [40, 41]))).2.src = [40, 41] := by rfl
+example : strOf (scanToken (fresh (stringPS ex1 ++ [47, 120]))).1 = some ex1 := by decide +kernel
+example : strOf (scanToken (fresh (stringPS ex2 ++ [40, 41]))).1 = some ex2 := by decide +kernel
+example : (scanToken (fresh (stringPS ex2 ++ [40, 41]))).2.src = [40, 41] := by decide +kernel
 -- the hypotheses of the general form are satisfiable
 example : (scanToken { src := stringPS ex1 ++ [1], line := 7, col := 3, crSeen := true, err := some .eof }).1 =
     .ok (.str ex1) := (string_roundtrip_from _ ex1 [1] rfl rfl rfl).1
@@ -164,7 +171,17 @@ example : ∀ b ∈ exn, regular b := by decide
 example : namePS exn = [47, 97, 98, 99, 46, 100, 45, 101, 200, 255] := by decide
 example : (scanToken (fresh (namePS exn ++ [32] ++ [49]))).1 = .ok (.obj (.name (bytesToString exn))) :=
   (name_roundtrip exn [49] (by decide)).1
-example : (scanToken (fresh (namePS exn ++ [32] ++ [49]))).1 = .ok (.obj (.name (bytesToString exn))) := by rfl
+/-- the bytes of a literal-name token -/
+def nameOf : Except Err Tok → Option (List UInt8)
+  | .ok (.obj (.name s)) => some (stringToBytes s)
+  | _ => none
+/-- info: (some [97, 98, 99, 46, 100, 45, 101, 200, 255], [49], [32]) -/
+#guard_msgs in
+#eval (nameOf (scanToken (fresh (namePS exn ++ [32] ++ [49]))).1,
+  (scanToken (fresh (namePS exn ++ [32] ++ [49]))).2.src, (scanToken (fresh (namePS exn ++ [32] ++ [49]))).2.peek)
+/-- info: (some [40, 41, 41, 92, 13, 10, 0, 200, 40], [47, 120]) -/
+#guard_msgs in
+#eval (strOf (scanToken (fresh (stringPS ex1 ++ [47, 120]))).1, (scanToken (fresh (stringPS ex1 ++ [47, 120]))).2.src)
 example : namePSPanics [97, 32] = true := by decide
 
 #print axioms string_roundtrip_from
